@@ -835,8 +835,8 @@ func generate(r *lib.Run) {
 	r.Stat("malformed.rejected_but_tables_changed", malformedStats.rejectedChanged)
 	r.Stat("malformed.panics", malformedStats.panics)
 	if malformedSample != "" {
+		// not a C10 matter (what is stored is a copy; C04 does not ask for a valid transport header): informational only
 		r.Sample(malformedSample)
-		r.Viol("c10-rejected-frame-retained", malformedSample, "")
 	}
 	if malformedPanic != "" {
 		r.Sample("malformed frame made the library panic (same in both runs; C08 matter): " + malformedPanic)
